@@ -361,6 +361,34 @@ func runC05(env *lib.Env, rep *lib.Report) {
 			rep.AddFailure(x.Fail)
 		}
 	}
+	// (8) BIGINT values next to each other where float64 no longer tells them apart (2^53 and the top of the
+	// range), compared with literals of the same neighbourhood in every operator and operand order, and sorted
+	if env.Shard == 1%env.NShards {
+		const p53 = int64(1) << 53
+		nb := []int64{p53 - 1, p53, p53 + 1, p53 + 2, 9223372036854775805, 9223372036854775806, 9223372036854775807}
+		var rows [][]any
+		for i, v := range nb {
+			rows = append(rows, []any{int64(i + 1), v, []string{"x", "y"}[i%2], i%2 == 0})
+		}
+		x := lib.RunOnce(func(c *lib.Ctx) {
+			qw := newQWorld(c, []*qTable{{name: "t", cols: c05Cols, rows: rows}})
+			defer qw.w.destroy()
+			for _, op := range []string{"=", "!=", "<", "<=", ">", ">="} {
+				for _, lit := range nb {
+					r.check(qw, &qQuery{items: star, from: from, where: &qCond{atoms: []qAtom{{qc("", "b"), ql(lit), op}}}, limit: -1, offset: -1}, "bigint-neighbours", "")
+					r.check(qw, &qQuery{items: star, from: from, where: &qCond{atoms: []qAtom{{ql(lit), qc("", "b"), op}}}, limit: -1, offset: -1}, "bigint-neighbours", "")
+				}
+			}
+			for _, dir := range []string{"", "DESC"} {
+				r.check(qw, &qQuery{items: star, from: from, orderBy: []qSort{{qRef{"", "b"}, dir}}, limit: -1, offset: -1}, "bigint-neighbours", "")
+				r.check(qw, &qQuery{items: star, from: from, orderBy: []qSort{{qRef{"", "d"}, ""}, {qRef{"", "b"}, dir}}, limit: 3, offset: 1, limitFirst: true}, "bigint-neighbours", "")
+			}
+		}, nil)
+		if x.Fail != nil {
+			rep.AddFailure(x.Fail)
+		}
+	}
+	rep.Bounds["bigint neighbours"] = "b in {2^53-1 .. 2^53+2, 2^63-3 .. 2^63-1} compared with each of these values in every operator and operand order; ORDER BY b"
 	rep.Bounds["zero-padded literals"] = "a/b compared with 07..012, 064, 0100 in every operator and operand order; LIMIT/OFFSET 08..012 (12-row table; must be read as decimal or refused)"
 	rep.Bounds["queries executed (this shard)"] = r.nQuery
 }
